@@ -7,6 +7,7 @@ package geom
 import (
 	"fmt"
 	"math"
+	"strconv"
 	"testing"
 
 	"pgregory.net/rapid"
@@ -542,4 +543,84 @@ func TestC19OracleSelfTest(t *testing.T) {
 			rt.Fatalf("oracles disagree: visibility graph %v, door DP %v on %+v", a, b, c)
 		}
 	})
+}
+
+// TestC19Exhaustive: small-scope exhaustive enumeration. Every corridor of 1..K unit-grid rectangles with integer
+// left/right edges in 0..G (heights alternate 1, 2 so that slopes vary; consecutive rectangles must share a segment of
+// positive length) x start in {3 points strictly inside the top edge, 2 side points} x end in {3 points strictly inside
+// the bottom edge, 2 side points}. Integer grids are where collinear vertices - the hard case of the funnel - are dense.
+// With VERIF_C19_FIT=1 the same corridors are also fed to the spline fitter (C20 part A).
+func TestC19Exhaustive(t *testing.T) { exhaustiveCorridors(t, propC19, false) }
+
+func exhaustiveCorridors(t *testing.T, p *Property, fit bool) {
+	startWatchdog()
+	K, _ := strconv.Atoi(getenv("VERIF_C19_K", "3"))
+	G, _ := strconv.Atoi(getenv("VERIF_C19_G", "4"))
+	nsh, _ := strconv.Atoi(getenv("VERIF_NSHARDS", "1"))
+	st := newStats(p.ID, p.Rule)
+	complete := false
+	defer func() { st.write(complete) }()
+	type iv struct{ l, r int }
+	var ivs []iv
+	for l := 0; l <= G; l++ {
+		for r := l + 1; r <= G; r++ {
+			ivs = append(ivs, iv{l, r})
+		}
+	}
+	idx, corridors := 0, 0
+	var rec func(rs []XRect, y float64)
+	rec = func(rs []XRect, y float64) {
+		if len(rs) >= 1 {
+			idx++
+			corridors++
+			if idx%nsh == cfg.Shard {
+				first, last := rs[0], rs[len(rs)-1]
+				var starts, ends []XY
+				for j := 1; j <= 3; j++ {
+					starts = append(starts, XY{first.L + (first.R-first.L)*float64(j)/4, first.T})
+					ends = append(ends, XY{last.L + (last.R-last.L)*float64(j)/4, last.B})
+				}
+				starts = append(starts, XY{first.L, (first.T + first.B) / 2}, XY{first.R, (first.T + first.B) / 2})
+				ends = append(ends, XY{last.L, (last.T + last.B) / 2}, XY{last.R, (last.T + last.B) / 2})
+				for _, s := range starts {
+					for _, e := range ends {
+						c := &CorridorCase{Rects: append([]XRect(nil), rs...), Start: s, End: e}
+						if fit { // layout-like units for the fitter: its tolerances (0.0316, 0.05) are absolute
+							for i := range c.Rects {
+								r := &c.Rects[i]
+								r.L, r.T, r.R, r.B = r.L*10, r.T*10, r.R*10, r.B*10
+							}
+							c.Start, c.End = XY{s.X * 10, s.Y * 10}, XY{e.X * 10, e.Y * 10}
+						}
+						c.StartClass, c.EndClass = classOf(c.Start, c.Rects[0], true), classOf(c.End, c.Rects[len(c.Rects)-1], false)
+						var cs any = c
+						if fit {
+							cs = &SplineCase{Corridor: c}
+						}
+						o := runCase(p, cs, st)
+						if o.Err != nil {
+							writeFailCase(p.ID, cs, o.Err)
+							t.Fatalf("property %s violated (exhaustive enumeration): %v\ncase: %s", p.ID, o.Err, mustRaw(cs))
+						}
+					}
+				}
+			}
+		}
+		if len(rs) == K {
+			return
+		}
+		h := float64(1 + len(rs)%2)
+		for _, v := range ivs {
+			if len(rs) > 0 {
+				prev := rs[len(rs)-1]
+				if math.Min(prev.R, float64(v.r))-math.Max(prev.L, float64(v.l)) <= 0 {
+					continue
+				}
+			}
+			rec(append(rs, XRect{L: float64(v.l), T: y, R: float64(v.r), B: y + h}), y+h)
+		}
+	}
+	rec(nil, 0)
+	complete = true
+	st.Extra["exhaustive_corridors"] = fmt.Sprintf("all corridors of 1..%d rectangles with integer edges in 0..%d (%d corridors) x 5 start x 5 end positions", K, G, corridors)
 }
